@@ -163,7 +163,8 @@ def _chunk(args):
     cfgname, lines = args
     col = core.Collector()
     for ln in lines:
-        check_case(col, cfgname, json.loads(ln))
+        t = json.loads(ln)
+        core.guarded(col, lambda: check_case(col, cfgname, t), "run", f"case {t}"[:600], {"config": cfgname, "transition": t})
         col.traces += 1
     return col
 
